@@ -731,7 +731,7 @@ def shrink(c, harness, case, key, budget=40):
 
 RACE_KEYS = {"snapshot": "C17:recursive-rlock-deadlock", "rootbucket": "C17:recursive-rlock-deadlock",
              "snapintx": "C17:recursive-rlock-deadlock", "nested": "C17:recursive-rlock-deadlock",
-             "listeners": "C17:restore-hangs"}
+             "listeners": "C17:restore-hangs", "accessors": "C17:recursive-rlock-deadlock"}
 
 
 def classify_race(c, case, impl, where=""):
@@ -751,6 +751,8 @@ def classify_race(c, case, impl, where=""):
         c.violation(key, "transactions racing restores stopped making progress%s (%s)" % (where, detail or "mode %s: child timed out" % mode), rp)
     elif f[1] == "mixture":
         c.violation("C17:restore-mixture", "a transaction racing RestoreSnapshot saw a mixture of databases%s: %s" % (where, detail), rp)
+    elif f[1] == "overlap":
+        c.violation("C17:overlapping-restores", "restores that overlap are not each applied as a whole%s: %s" % (where, detail), rp)
     elif f[1] == "snapid":
         c.violation("C17:snapshot-id", "metadata pollers racing RestoreFromReader%s: %s" % (where, detail.replace("snapid ", "", 1)), rp)
     elif f[1] == "timeline":
